@@ -74,3 +74,34 @@ def symbol_value(vc, j, token=False):
 
 
 FA_VALUE_CLASSES = ["int", "str", "merged", "mixed", "tuple", "inject", "binary", "reservedfa", "hashclash"]
+
+
+class OneShot:
+    """a word handed over as a one-shot iterable (like a generator or iter(list)): it can be iterated ONCE; the
+    monitors read .content instead of consuming it"""
+
+    def __init__(self, items):
+        self.content = list(items)
+        self._it = iter(self.content)
+
+    def __iter__(self):
+        return self
+
+    def __next__(self):
+        return next(self._it)
+
+
+def items_of(word):
+    """the items of a word argument without consuming a OneShot"""
+    if isinstance(word, OneShot):
+        return list(word.content)
+    return list(word)
+
+
+def word_form(wd, i):
+    """the same word in another accepted form: list, tuple, one-shot iterable"""
+    if i % 5 == 3:
+        return OneShot(wd)
+    if i % 5 == 4:
+        return tuple(wd)
+    return list(wd)
